@@ -459,6 +459,10 @@ impl Model {
         if !names::table_name_ok(name) || cols.is_empty() || cols.len() > 32 {
             return Expect::Err;
         }
+        // the pool's two streams are named like table streams: no table may take their names
+        if name == "_StringPool" || name == "_StringData" {
+            return Expect::Err;
+        }
         if !cols.iter().any(|c| c.key) {
             return Expect::Err;
         }
